@@ -4,7 +4,10 @@ CONSTANTS
   MaxNext = 6
   Variant = "ok"
   MidCrash = FALSE
-  ReqDescs = {"bech32/0", "legacy/1", "bech32m/0"}
+  ReqDescs = {"bech32/0", "bech32/1"}
+  Hard = {"bech32/1"}
+  ViaReserve = {"legacy/1", "p2sh-segwit/1", "bech32/1", "bech32m/1"}
+  InitLocks = {"plain", "unlocked"}
   TopUps = {0, 5}
 INIT Init
 NEXT Next
